@@ -178,7 +178,7 @@ theorem map_keys_lookup {β γ : Type} (lk : Bytes → List (Bytes × β) → Op
     have : k ≠ k' := fun heq => h.1 (heq ▸ hk')
     simp [this]
 
-theorem den_doc_wf (keys : List Bytes) (obj : NMembers) (h : WF (.doc keys obj) = true) :
+theorem den_doc_of_WF (keys : List Bytes) (obj : NMembers) (h : WF (.doc keys obj) = true) :
     den (.doc keys obj) = .obj (denM obj) := by
   simp only [WF, Bool.and_eq_true, beq_iff_eq] at h
   obtain ⟨⟨h1, h2⟩, _⟩ := h
@@ -193,7 +193,7 @@ theorem den_doc_wf (keys : List Bytes) (obj : NMembers) (h : WF (.doc keys obj) 
   simp [denM_eq_map]
 
 theorem den_doc_inv {e : Bool} {keys : List Bytes} {obj : NMembers} (h : Inv e (.doc keys obj)) :
-    den (.doc keys obj) = .obj (denM obj) := den_doc_wf keys obj h.1
+    den (.doc keys obj) = .obj (denM obj) := den_doc_of_WF keys obj h.1
 
 theorem den_ary (ns : List Node) : den (.ary ns) = .arr (denL ns) := by simp [den]
 
